@@ -195,8 +195,27 @@ def run(ctx):
     # the reproducer of F29 (irregular interleaving) and its regular counterpart, in every run
     xml_files(ctx, {"s0.xml": "<Root><b>-7</b><c>1</c><d>a b</d><b>1</b><b>-7</b><c>1</c><d>a b</d></Root>"})
     xml_files(ctx, {"s0.xml": "<Root><h>1</h><b>-7</b><c>1</c><d>a b</d><b>1</b><c>2</c><d>t</d><z>9</z></Root>"})
+    namespace_mixes(ctx)
     mixed_samples(ctx)
     cg.cleanup_all()
+
+
+def namespace_mixes(ctx):
+    """Samples whose elements change namespace on the way down (MC_Infer keeps one namespace per sample set): an
+    unqualified root with qualified children with unqualified grandchildren, the reverse, two alternating namespaces,
+    and a default namespace switched off half way.  A fixed corpus, in every run."""
+    P, Q = 'xmlns:p="urn:p"', 'xmlns:q="urn:q"'
+    sets = [
+        {"s0.xml": f'<Root id="1"><who>al</who><p:part {P} code="x"><qty>1</qty><p:detail><size>3</size><p:grade>A</p:grade></p:detail></p:part>'
+                   f'<p:part {P} code="y"><qty>2</qty><p:detail><size>4</size><p:grade>B</p:grade></p:detail></p:part><total>12.5</total></Root>',
+         "s1.xml": f'<Root id="2"><who>bo</who><p:part {P} code="z"><qty>7</qty><p:detail><size>5</size><p:grade>C</p:grade></p:detail></p:part><total>1.5</total></Root>'},
+        {"s0.xml": f'<p:Root {P}><a>1</a><b><p:c>2</p:c><d>x</d></b></p:Root>'},
+        {"s0.xml": f'<p:Root {P} {Q}><q:a><p:b><q:c>1</q:c></p:b><p:b><q:c>2</q:c></p:b></q:a><p:e>t</p:e></p:Root>'},
+        {"s0.xml": '<Root xmlns="urn:p"><a>1</a><b xmlns=""><c>2</c><d xmlns="urn:q"><e>3</e></d></b></Root>'},
+        {"s0.xml": f'<Root><p:a {P}>1</p:a><a>2</a><q:a {Q}>3</q:a></Root>'},
+    ]
+    for files in sets:
+        xml_files(ctx, files)
 
 
 KID_XML = {"s": "<em>x{i}</em>", "a": '<ref kind="k{i}">b{i}</ref>', "k": "<k><v>{i}</v></k>"}   # one name per kind of child: names are used consistently
